@@ -237,6 +237,7 @@ func (req *SrvReq) process() {
 	verifPoint("process.marked", req)
 	if flushed {
 		req.Respond()
+		return
 	}
 
 	if rop, ok := (req.Conn.Srv.ops).(SrvReqProcessOps); ok {
